@@ -13,7 +13,7 @@ VERIF = os.path.dirname(os.path.dirname(os.path.abspath(__file__)))
 REPO = os.environ.get("VERIF_REPO", "/repo")
 COQ = os.path.join(VERIF, "coq")
 TH = os.path.join(COQ, "theories")
-BUILD = os.path.join(VERIF, ".build")
+BUILD = os.environ.get("VERIF_BUILD") or os.path.join(VERIF, ".build")
 GO = "go1.26.8"
 GOENV = dict(GOFLAGS="-mod=readonly", GOPROXY="off", GOSUMDB="off", GOTOOLCHAIN="local", CGO_ENABLED="1")
 
